@@ -15,6 +15,8 @@ CLAIMED = {
  "C08": ("4 C08", "EHashToGroup/EEncodeToGroup actions: SHA-256, expand_message_xmd, hash_to_field computed in TLA+; SSWU, addition on E' and the isogeny checked by relations with unique solutions; message lengths at SHA padding boundaries, DST lengths 1..1000 incl. 255/256/257 (oversize rule), empty/nil DST must panic."),
  "C09": ("4 C09", "SHashToScalar action: OS2IP(expand_message_xmd(msg, DST, 48)) mod n computed in TLA+."),
  "C10": ("4 C10", "Random histories (40 calls) over a pool of 4 elements and 3 scalars with deliberate aliasing; the full pool is observed after every call, so frame conditions and copy independence are checked at every step; SecpAbs is additionally explored exhaustively by TLC on a toy curve."),
+ "C11": ("4 C11", "FieldAbs!MSswu / MIso actions: the exported SSWU and isogeny functions called on u in {0, +-sqrt(-1/Z) (the three exceptional values), 1, p-1, small, random; both parities; g(x1) square and non-square}; the returned point of E' is checked by the inversion-free relation Sswu!IsMapOf (unique solution; equivalence with the RFC's functional definition model-checked for every u of toy fields), the isogeny by the cross-multiplied rational map and the curve equation; also on sums of mapped points."),
+ "C12": ("4 C12", "FieldAbs: internal/field.Element methods as actions over a pool of 4 registers with explicit destination/source ids (aliasing), Bytes() of every register observed after every call plus a canonical-representation probe; results computed by the specification's BigNat arithmetic, Invert and SqrtRatio by their defining relations; operand classes from limb patterns, values around p, squares / non-squares, 32-byte parser inputs around p, 48-byte wide-reduction classes. The specification acts as an executable oracle here (TLA+ contributes least for this property)."),
  "C13": ("4 C13", "SEqual/SIsZero/SIsOne/SLessOrEqual/SCSelect actions; random and limb-pattern pairs; condition words 0, 1, 2, 2^32, 2^63, 2^64-1, random; nil operands."),
  "C14": ("4 C14", "SBits action: all 256 powers of two, boundary values, values produced by arithmetic."),
  "C15": ("4 C15", "Mem.tla: caller buffers and result intervals as state; Call requires every byte of every caller buffer (whole backing array, three layouts: len=cap, len<cap, interior sub-slice) unchanged and every returned slice disjoint from all caller buffers and all earlier results; Probe re-observes values after the caller scribbled over returned slices / input buffers. Element and scalar arguments are covered by the frame conditions of C10's histories."),
@@ -23,8 +25,6 @@ CLAIMED = {
  "C18": ("4 C18", "SRandom action over scripted entropy sources (crypto/rand.Reader swapped): blocks 0 and n force retries, every chunking of Reads, source failing at every kind of position; RandomSrc!Outcome decides result / panic."),
 }
 NOT_YET = {
- "C11": "check not built yet in this revision (planned: TLC validation of SSWU / isogeny traces, MC_Sswu on toy fields)",
- "C12": "check not built yet in this revision (planned: TLC validation of internal/field traces)",
  "C19": "check not built yet in this revision (planned: Schedule.tla + field-operation traces)",
 }
 
